@@ -2812,6 +2812,13 @@ func (db *DB) Import(ctx context.Context, r io.Reader) error {
 	}
 	defer guard.Unlock()
 
+	// Roll back a left-over journal and checkpoint committed WAL frames into
+	// the database file first. Otherwise the steps below discard them and an
+	// import that fails afterwards leaves an older image under the current position.
+	if err := db.recover(ctx); err != nil {
+		return fmt.Errorf("recover: %w", err)
+	}
+
 	// Invalidate journal, if one exists.
 	if err := db.invalidateJournal(JournalModePersist); err != nil {
 		return fmt.Errorf("invalidate journal: %w", err)
